@@ -295,6 +295,16 @@ static void dump_prng(int i)
 
 #define MAXTOK 12
 
+/* Before every operation: the thread's errno holds a stale error and the stack below the current frame holds a pattern that
+ * depends on how many operations ran before - a library call whose result depends on either (stale errno taken for the outcome
+ * of its own system call, a local buffer used before it is written) then gives results that depend on earlier unrelated calls. */
+static __attribute__((noinline)) void dirty_stack(unsigned long salt)
+{
+    volatile unsigned char pad[6144]; size_t i;
+    for (i = 0; i < sizeof(pad); ++i) pad[i] = (unsigned char)(0xC3 ^ (i * 7) ^ (salt * 29));
+    __asm__ volatile("" : : "r"(pad) : "memory");
+}
+
 /* execute one operation line (modified in place) and print its result line to OUT */
 static void exec_line(char *line)
 {
@@ -312,6 +322,8 @@ static void exec_line(char *line)
             fprintf(OUT, "crash %s\n", sig == SIGSEGV ? "SIGSEGV" : sig == SIGBUS ? "SIGBUS" : sig == SIGFPE ? "SIGFPE" : "SIGILL");
             return;
         }
+        dirty_stack(opno);
+        errno = ENOENT;
 
         if (!strcmp(tok[0], "perm") && nt == 5) {
             int v = atoi(tok[1]); bytes_t st = parse_hex(tok[2]), key = parse_hex(tok[3]);
